@@ -2,9 +2,11 @@
 # Runs every confirmed seeded breaking change against the quick check of the property it targets and records the
 # outcome in its meta.json (caught_by) and in seeded/MATRIX.txt. Applies each patch to /repo and reverts it.
 cd /verif || exit 2
-: > seeded/MATRIX.txt
+# MATRIX_ONLY=<regex>: run only the matching changes and replace just their lines
+if [ -z "$MATRIX_ONLY" ]; then : > seeded/MATRIX.txt; fi
 for d in seeded/C*-*/; do
   name=$(basename "$d"); id=${name%-*}
+  if [ -n "$MATRIX_ONLY" ]; then echo "$name" | grep -q -E -e "$MATRIX_ONLY" || continue; sed -i "/^$name: /d" seeded/MATRIX.txt; fi
   [ -s "$d/patch.diff" ] || { echo "$name: empty patch" | tee -a seeded/MATRIX.txt; continue; }
   out=$(./seedtest.sh "/verif/$d/patch.diff" "$id" 2>&1)
   rc=$(echo "$out" | sed -n 's/^check exit=//p' | tail -1)
@@ -24,4 +26,5 @@ m["caught_by"]={"check":f"./check.sh {pid} quick","verdict":verdict,"first_repor
 json.dump(m,open(p,"w"),indent=1,ensure_ascii=False)
 PY
 done
+sort -o seeded/MATRIX.txt seeded/MATRIX.txt
 git -C /repo status --short | head -3
